@@ -149,28 +149,38 @@ impl Ord for Elem {
 
 /// Plain-data identity of an observable's value.
 #[derive(Clone, Copy, Debug, PartialEq, Eq, Hash, PartialOrd, Ord, Serialize, Deserialize, Default)]
-pub struct OV(pub u8, pub u32);
+pub struct OV(pub u8, pub u32, pub u16);
+
+impl OV {
+    /// Equality as the stored type's `PartialEq` sees it (the tag is not compared).
+    pub fn sem_eq(&self, o: &OV) -> bool {
+        self.0 == o.0 && self.1 == o.1
+    }
+}
 
 /// The value type stored in Observable/SharedObservable: `Hash` looks at `key` only while `Eq`
 /// looks at `key` and `payload`, so "differs by equality" and "differs by hash" are distinguishable.
+/// `tag` is ignored by both, so two equal values are still distinguishable by the harness ("change
+/// nothing" for an equal value means the stored instance is the old one).
 #[derive(Clone, Debug)]
 pub struct OVal {
     pub key: u8,
     pub payload: u32,
+    pub tag: u16,
     _tok: Token,
 }
 
 impl OVal {
     pub fn new(v: OV) -> Self {
-        OVal { key: v.0, payload: v.1, _tok: Token::new() }
+        OVal { key: v.0, payload: v.1, tag: v.2, _tok: Token::new() }
     }
     pub fn v(&self) -> OV {
-        OV(self.key, self.payload)
+        OV(self.key, self.payload, self.tag)
     }
 }
 impl Default for OVal {
     fn default() -> Self {
-        OVal::new(OV(0, 0))
+        OVal::new(OV(0, 0, 0))
     }
 }
 impl PartialEq for OVal {
